@@ -291,7 +291,9 @@ def _judge_answer(ctx, P, key, o, q):
         return True
     same = ctx.close(_vec(el), _vec(exp), TOL,
                      f'{P}: elements = those of a fresh object asked (date, place, height, frame) with an explicit decimal date',
-                     key, track='dev.vs_fresh')
+                     key)
+    dev = float(np.max(np.abs(np.array(_vec(el)) - np.array(_vec(exp)))))
+    ctx.track('dev.vs_fresh(cases within tolerance)' if same else 'info.dev.vs_fresh(violating cases)', dev)
     # mutual consistency of what the object reports
     X, Y, Z = el['X'], el['Y'], el['Z']
     H = math.hypot(X, Y)
